@@ -547,6 +547,10 @@ def edit_cases(bases, rng, per_base, extra=True):
 
 
 HAND_CASES = [
+    # one version declaration per file, different versions (the including file's wins)
+    {"text": "- snowfakery_version: 2\n- include_file: b.yml\n- object: A\n", "name": None, "files": {"b.yml": "- snowfakery_version: 3\n- object: B\n"}, "origin": "hand/versions-differ-across-files", "kind": "hand"},
+    {"text": "- include_file: b.yml\n- snowfakery_version: 3\n- object: A\n", "name": None, "files": {"b.yml": "- snowfakery_version: 2\n- snowfakery_version: 2\n- object: B\n"}, "origin": "hand/versions-differ-across-files-2", "kind": "hand"},
+    {"text": "- include_file: b.yml\n- snowfakery_version: 3\n- snowfakery_version: 2\n- object: A\n", "name": None, "files": {"b.yml": "- snowfakery_version: 2\n- object: B\n"}, "origin": "hand/versions-conflict-in-one-file", "kind": "hand"},
     # two files that include each other (no cycle check for include_file)
     {"text": "- include_file: b.yml\n- object: A\n", "name": None, "files": {"b.yml": "- include_file: main.recipe.yml\n- object: B\n"}, "origin": "hand/include-cycle", "kind": "hand"},
     {"text": "- include_file: b.yml\n- object: A\n", "name": None, "files": {"b.yml": "- object: [\n"}, "origin": "hand/include-bad-yaml", "kind": "hand"},
@@ -581,6 +585,11 @@ def run(ctx, rep, findings):
     bases = valid_bases(rep)
     rep.extra["valid_bases"] = len(bases)
     check_cases([dict(b, kind="base") for b in bases], rep)
+    # a generated base is valid by construction: if it stops running it is not dropped but reported
+    valid_origins = {b["origin"] for b in bases}
+    lost = [dict(b, kind="base-lost") for b in D.base_cases() if b["origin"].startswith("gen/") and b["origin"] not in valid_origins]
+    if lost:
+        check_cases(lost, rep)
 
     # 3 single structural edits
     thorough = ctx.tier == "thorough"
